@@ -90,7 +90,7 @@ def run(chk, model_ok=True):
     quick = chk.tier == "quick"
     env = e2e.env()
     peers = [e2e.Peer("v1"), e2e.Peer("v2c"), e2e.Peer("v3"), e2e.Peer("v3", auth=2, priv=2)]
-    plan = [("raw", 700 if quick else 20000), ("sync", 500 if quick else 15000), ("async", 60 if quick else 1500)]
+    plan = [("raw", 1050 if quick else 30000), ("sync", 750 if quick else 22500), ("async", 90 if quick else 2250)]
     bad = 0
     n_walks = 0
     n_exch = 0
@@ -160,8 +160,8 @@ def run(chk, model_ok=True):
                                 "yields": [o for o, _ in exp][:5], "ending": str(e_want)})
     st = streams.Streams(chk, model_ok)
     st.add("walk-e2e-scripts", lines)
-    st.add("walk", gens.lines_walk(rng, 3000 if quick else 60000))
-    st.add("cmp", gens.lines_cmp(rng, 2000 if quick else 40000))
+    st.add("walk", gens.lines_walk(rng, 4500 if quick else 90000))
+    st.add("cmp", gens.lines_cmp(rng, 3000 if quick else 60000))
     st.run()
     for ln, out in zip(st.lines, st.impl):
         if out == "PANIC":
